@@ -1,0 +1,96 @@
+//go:build verif
+
+package simhook
+
+import (
+	"sync"
+	"sync/atomic"
+)
+
+// AutoSimulator is the optional part of a simulator that serves machine-inserted interleaving
+// points: the verification harness builds a scratch copy of the module in which every statement
+// is preceded by Auto(site) and sync.Mutex / sync.RWMutex are replaced by the types below.
+// Nothing in the repository itself calls Auto or uses these types.
+type AutoSimulator interface {
+	// Auto is an interleaving point before the statement at site (file:line).
+	Auto(site string)
+	// WaitFor parks the calling goroutine until cond holds (evaluated when nothing runs).
+	WaitFor(label string, cond func() bool)
+}
+
+func auto() AutoSimulator {
+	if s := get(); s != nil {
+		if a, ok := s.(AutoSimulator); ok {
+			return a
+		}
+	}
+	return nil
+}
+
+// Auto marks a machine-inserted interleaving point.
+func Auto(site string) {
+	if a := auto(); a != nil {
+		a.Auto(site)
+	}
+}
+
+// Mutex is a sync.Mutex the simulator can see: a goroutine that would block on it is parked in
+// the simulator instead of inside the runtime, so that the holder may stop at interleaving points.
+type Mutex struct {
+	mu   sync.Mutex
+	held atomic.Bool
+}
+
+func (m *Mutex) Lock() {
+	if a := auto(); a != nil {
+		a.WaitFor("mutex.lock", func() bool { return !m.held.Load() })
+	}
+	m.mu.Lock()
+	m.held.Store(true)
+}
+
+func (m *Mutex) TryLock() bool {
+	if !m.mu.TryLock() {
+		return false
+	}
+	m.held.Store(true)
+	return true
+}
+
+func (m *Mutex) Unlock() {
+	m.held.Store(false)
+	m.mu.Unlock()
+}
+
+// RWMutex is the sync.RWMutex counterpart of Mutex.
+type RWMutex struct {
+	mu      sync.RWMutex
+	writer  atomic.Bool
+	readers atomic.Int32
+}
+
+func (m *RWMutex) Lock() {
+	if a := auto(); a != nil {
+		a.WaitFor("rwmutex.lock", func() bool { return !m.writer.Load() && m.readers.Load() == 0 })
+	}
+	m.mu.Lock()
+	m.writer.Store(true)
+}
+
+func (m *RWMutex) Unlock() {
+	m.writer.Store(false)
+	m.mu.Unlock()
+}
+
+func (m *RWMutex) RLock() {
+	if a := auto(); a != nil {
+		a.WaitFor("rwmutex.rlock", func() bool { return !m.writer.Load() })
+	}
+	m.mu.RLock()
+	m.readers.Add(1)
+}
+
+func (m *RWMutex) RUnlock() {
+	m.readers.Add(-1)
+	m.mu.RUnlock()
+}
